@@ -126,7 +126,8 @@ class C14(Prop):
     def canon(self, lines):
         """every line is tagged u<k>; the property is per user, so the lines are grouped by user (stable): the order in
         which the driver visits the users during one pass (slot order / epoll order) is not part of the comparison"""
-        ls = [l for l in Prop.canon(self, lines) if not (l.startswith("logon") or l.startswith("net_dead"))]
+        # `err ...` = the master's error_handler line of an LPC error; the harness reports the error itself as `lpcerr`
+        ls = [l for l in Prop.canon(self, lines) if not (l.startswith("logon") or l.startswith("net_dead") or l.startswith("err *"))]
 
         def key(l):
             t = l.split(" ", 1)[0]
